@@ -194,6 +194,10 @@ def run(ctx):
             os.chdir(old)
             os.close(fd)
     ctx.counted('REALPATH side clauses and root naming', n, n // 2, [{'pattern': '*/', 'path': 'vis'}])
+    # the REALPATH decision procedure itself: extracted RealMatch model vs _Match.match(real=True), regexes real and made up
+    ctx.corr('REALPATH decision (_Match.match)', corr.corr_realpath(rng, [trees.DESIGNED[0], trees.DESIGNED[3], trees.DESIGNED[1], trees.DESIGNED[2]] +
+                                                                   [trees.random_spec(rng, size=rng.randint(6, 12), cycles=False) for _ in range(2 if ctx.quick else 12)],
+                                                                   150 if ctx.quick else 600))
     from wcmatch import glob as G2
     common.replay_witnesses(ctx, [])
     return ctx.finish(RULE)
